@@ -272,7 +272,8 @@ CPTampers ==
    \* recomputed over the forged list: a commitment of nothing in the block
    <<"forge", "first">>, <<"forge", "middle">>, <<"forge", "last">>}
 
-Forged(sr) == <<"sr", <<"forged", sr>>>>
+\* (forging flips bits of the digest: forging the same root twice restores it)
+Forged(sr) == IF Len(sr) = 2 /\ Len(sr[2]) = 2 /\ sr[2][1] = "forged" THEN sr[2][2] ELSE <<"sr", <<"forged", sr>>>>
 \* position (in subtreeRoots) of the first subtree root of row k of object o's honest proof (width 1)
 RowsOfCP(o) == Len(HonestCP(o[1], o[2]).subtreeRootProofs)
 FirstRootOfRow(o, k) ==
